@@ -266,9 +266,10 @@ def _worker(item):
                 res['samples'].append({'raw': t, 'specs': specs})
     elif kind == 'placement':
         for combo in payload:
-            hist, expect_specs = placement_file(combo)
-            n, probs = check_channel_file(hist, expect_specs, 'Int16', seed)
-            record({'part': 'placement', 'raw': 'Int16', 'combo': combo, 'seed': seed}, expect_specs, n, probs)
+            for late in (False, True):
+                hist, expect_specs = placement_file(combo, late)
+                n, probs = check_channel_file(hist, expect_specs, 'Int16', seed)
+                record({'part': 'placement', 'raw': 'Int16', 'combo': combo, 'late': late, 'seed': seed}, expect_specs, n, probs)
     elif kind == 'deep':
         for specs, with_number in payload:
             for t in ('Int16', 'DoubleFloat'):
@@ -289,7 +290,7 @@ PLACE_OPTS = ['none', 'G1', 'G2', 'G1-scaled', 'G1-unscaled', 'G2-zero', 'G1-non
 PG = {'G1': [dict(LIN, src=None)], 'G2': [dict(POLY3, src=R.RAW), {'type': 'Add', 'left': 0, 'right': R.RAW}]}
 
 
-def placement_file(combo):
+def placement_file(combo, late=False):
     """combo = (channel option, group option, root option) -> (history, specs expected to apply | None)"""
     levels = []
     expect = None
@@ -308,7 +309,12 @@ def placement_file(combo):
         levels.append(props)
         if applies and expect is None:
             expect = g
-    hist = custom_values_file('Int16', levels[0], levels[1], levels[2])
+    if late:
+        # the channel (with its own properties) comes first; the group and root objects only appear in a later, appended segment
+        hist = [G.seg([(A, ['FULL', 'Int16', 3], list(levels[0])), (B, ['FULL', 'Int8', 1])], chunks=2),
+                G.seg([("/'g'", ['NODATA'], list(levels[1])), ('/', ['NODATA'], list(levels[2]))], newlist=False)]
+    else:
+        hist = custom_values_file('Int16', levels[0], levels[1], levels[2])
     return hist, expect
 
 
@@ -365,7 +371,7 @@ def replay(case):
         hist = custom_values_file(case['raw'], R.props_for(specs, number_of_scales=case['with_number']))
         n, probs = check_channel_file(hist, specs, case['raw'], case.get('seed', 0))
     elif case['part'] == 'placement':
-        hist, expect = placement_file(tuple(case['combo']))
+        hist, expect = placement_file(tuple(case['combo']), case.get('late', False))
         n, probs = check_channel_file(hist, expect, 'Int16', case.get('seed', 0))
     else:
         specs = case['specs']
